@@ -61,9 +61,8 @@ def run(tier):
         hist.append(k + (":%d:%d" % (e["pos"], e.get("mask", 0)) if e["ev"] == "Corrupt" else ""))
         stats[k] = stats.get(k, 0) + 1
     rep.coverage["events_by_kind"] = stats
-    for need in ("Retrieve:ok", "Retrieve:err", "Store:ok", "ChangePw:ok", "CrashProbe:renamed", "Corrupt:xor"):
-        if stats.get(need, 0) == 0:
-            raise vlib.ToolError("driver produced no %s event" % need)
+    vacuous = [need for need in ("Retrieve:ok", "Retrieve:err", "Store:ok", "ChangePw:ok", "CrashProbe:renamed", "Corrupt:xor")
+               if stats.get(need, 0) == 0]
     sweep_len = next((e["len"] for e in recs if e["ev"] == "Corrupt"), 0)
     sweep_pos = len({e["pos"] for e in recs[:next(i for i, e in enumerate(recs) if e["ev"] == "Reset" and e.get("kind") == "history")]
                      if e["ev"] == "Corrupt" and e["kind"] == "xor"})
@@ -79,7 +78,9 @@ def run(tier):
                       {"line": v["line"], "event": ev, "context": ctx, "trace": trace})
     if res["nviol"] > len(res["viol"]):
         rep.notes.append("%d violations in total, first 25 of each (clause, cond) class kept" % res["nviol"])
-    selftest(recs, h0, wd)
+    if vacuous and not _unknown_violations(rep):
+        raise vlib.ToolError("driver produced no %s event" % ", ".join(vacuous))
+    _selftest_guarded(rep, selftest, recs, h0, wd)
     rep.assumptions.append("crash images are composed by the harness from the real old and new file bytes in the order of writes of "
                            "encrypt_and_store (tmp, rename); with hook H4 they would be captured at the crash points themselves")
     return rep.finish(
@@ -122,3 +123,25 @@ def selftest(recs, h0, wd):
     for i, (name, _) in enumerate(variants):
         if i > 0 and per[i] <= per[0]:
             raise vlib.ToolError("self-test %s: corrupted trace was not rejected (%s)" % (name, per))
+
+
+def _unknown_violations(rep):
+    """Violations of this run that no known finding explains (same matching as vlib.Report.finish)."""
+    import re as _re
+    known = [f for f in vlib.load_findings() if f.get("property") == rep.pid and f.get("status") == "known"]
+    return [v for v in rep.violations
+            if not any(f["clause"] == v["clause"] and f["site"] == v["site"] and _re.fullmatch(f["cond"], str(v["cond"])) for f in known)]
+
+
+def _selftest_guarded(rep, fn, *args):
+    """The binding self-test compares violation counts of corrupted copies with the intact copy. On a tree that
+    already violates the property the comparison can be inconclusive; then the violations are the result (exit 1),
+    not a tool error. On an otherwise clean run a failing self-test stays a tool error."""
+    try:
+        fn(*args)
+    except vlib.ToolError as e:
+        if _unknown_violations(rep):
+            rep.notes.append("binding self-test inconclusive on a violating trace: %s" % e)
+            vlib.log("self-test inconclusive (trace has new violations): %s" % e)
+        else:
+            raise
